@@ -34,12 +34,21 @@ struct Shared {
 }
 
 fn spawn() -> std::io::Result<(Child, Arc<Shared>, std::thread::JoinHandle<()>)> {
+    spawn_delayed(Duration::ZERO)
+}
+
+/// `reader_delay`: the client does not read the server's output before that time has passed
+/// (a slow client: the pipe fills up and the server's writer is blocked meanwhile)
+fn spawn_delayed(reader_delay: Duration) -> std::io::Result<(Child, Arc<Shared>, std::thread::JoinHandle<()>)> {
     let mut child = Command::new(binary()).env("TOKIO_WORKER_THREADS", "4").stdin(Stdio::piped()).stdout(Stdio::piped()).stderr(Stdio::null()).spawn()?;
     let mut out = child.stdout.take().unwrap();
     let shared = Arc::new(Shared { buf: Mutex::new((vec![], false)), cv: Condvar::new() });
     let s2 = shared.clone();
     let h = std::thread::spawn(move || {
         let mut b = [0u8; 65536];
+        if !reader_delay.is_zero() {
+            std::thread::sleep(reader_delay);
+        }
         loop {
             match out.read(&mut b) {
                 Ok(0) | Err(_) => break,
@@ -106,6 +115,24 @@ fn finish(mut child: Child, shared: Arc<Shared>, reader: std::thread::JoinHandle
         Ok(f) => o.frames = f,
         Err(e) => o.frame_error = Some(e),
     }
+    o
+}
+
+/// Slow client: everything is written in one go (from a thread of its own, the pipe to the
+/// server may fill up as well), stdin is closed, and the output is read only after `delay`.
+pub fn run_slow_reader(bytes: Vec<u8>, delay: Duration, limit: Duration) -> ProcOutcome {
+    let mut o = ProcOutcome::default();
+    let Ok((mut child, shared, reader)) = spawn_delayed(delay) else {
+        o.frame_error = Some("cannot spawn the binary".into());
+        return o;
+    };
+    let mut stdin = child.stdin.take().unwrap();
+    let w = std::thread::spawn(move || {
+        let _ = stdin.write_all(&bytes).and_then(|_| stdin.flush());
+        drop(stdin);
+    });
+    let o = finish(child, shared, reader, limit + delay, o);
+    let _ = w.join();
     o
 }
 
